@@ -100,11 +100,15 @@ impl ActTask for Act {
         let mut is_next: bool = false;
         if state.is_running() {
             // lifecycle-hook acts attached below this act are fire-and-forget: the act does not
-            // wait for them (their completion never reviews the parent)
+            // wait for them (their completion never reviews the parent).
+            // Children are found through the prev link, which also leads to the act that follows
+            // this one in its step (it exists already when this act is a sub process call): only
+            // tasks below this act are its children
+            let level = task.node.level;
             let tasks = task
                 .children()
                 .into_iter()
-                .filter(|t| !t.is_event_processed())
+                .filter(|t| !t.is_event_processed() && t.node.level > level)
                 .collect::<Vec<_>>();
             let mut count = 0;
 
@@ -148,11 +152,15 @@ impl ActTask for Act {
         let state = task.state();
         if state.is_running() {
             // lifecycle-hook acts attached below this act are fire-and-forget: the act does not
-            // wait for them (their completion never reviews the parent)
+            // wait for them (their completion never reviews the parent).
+            // Children are found through the prev link, which also leads to the act that follows
+            // this one in its step (it exists already when this act is a sub process call): only
+            // tasks below this act are its children
+            let level = task.node.level;
             let tasks = task
                 .children()
                 .into_iter()
-                .filter(|t| !t.is_event_processed())
+                .filter(|t| !t.is_event_processed() && t.node.level > level)
                 .collect::<Vec<_>>();
             let mut count = 0;
             for t in tasks.iter() {
